@@ -1,7 +1,7 @@
 """chef workers under contract (C11)."""
 import z3
 from pyvc.vals import *  # noqa
-from pyvc.task import Task
+from pyvc.task import Task, FragmentTask
 from pyvc.vc import veq
 from pyvc.loops import LoopSpec
 from pyvc.libfile import RFile, WFile, hdrlen
@@ -9,6 +9,8 @@ from pyvc.libnp import reduce_const
 from contracts.common import sym_path, size_of
 from contracts.ondisk import DiskFile
 from props.combine_kernels import selection
+
+CF = "amr_kitchen.chef.chef."
 
 CH = "amr_kitchen.chef.chef."
 I = z3.IntSort()
@@ -135,8 +137,11 @@ class UserPfileKnife(Task):
         ctx.oblige("post.recipe-gets-field-indexes", all(c[0] for c in inp["calls"]), "P")
 
 
-def chef_tasks(prop):
-    return [UserPfileKnife(False), UserPfileKnife(True)]
+def chef_tasks(prop, tier="quick"):
+    out = [UserPfileKnife(False), UserPfileKnife(True)] + init_tasks(tier)
+    for t in out:
+        t.prop = prop
+    return out
 
 
 def chef_canaries():
@@ -144,4 +149,55 @@ def chef_canaries():
     return [("user knife: minima taken on the new data only",
              [(f, "                min_values = np.min(alldata, axis=(0, 1, 2))\n                max_values = np.max(alldata, axis=(0, 1, 2))\n                mins.append(min_values)\n                maxs.append(max_values)\n                bfw.write(alldata.flatten(order=\"F\").tobytes())\n\n    return offsets, np.array(mins), np.array(maxs)\n\nclass Chef",
                "                min_values = np.min(newdata, axis=(0, 1, 2))\n                max_values = np.max(alldata, axis=(0, 1, 2))\n                mins.append(min_values)\n                maxs.append(max_values)\n                bfw.write(alldata.flatten(order=\"F\").tobytes())\n\n    return offsets, np.array(mins), np.array(maxs)\n\nclass Chef")],
-             ["chefs_knife_user_pfile[n components]"])]
+             ["chefs_knife_user_pfile[n components]"])] + init_canaries()
+
+
+# ---------------------------------------------------------------------------------------------------------------------
+# Chef.__init__: the names written in the headers are in the order the workers write the components
+
+
+class KeptNames(FragmentTask):
+    """The statements of Chef.__init__ that prepend the kept fields' names to the recipe's output names: with ids_keep the
+    component indices the workers copy first (in that order, repetitions included), outfields[t] is the name of input
+    component ids_keep[t] for every t, followed by the recipe's names unchanged - 'every component is stored under its own
+    name'.  (Real code on bounded skeletons: field count and the kept list are concrete.)"""
+    prop = "C11"
+    reach = "S"
+    qual = CF + "Chef.__init__"
+    first = staticmethod(FragmentTask.assigns("kept_names"))
+    last = staticmethod(FragmentTask.assigns("outfields"))
+    unordered = True
+
+    def __init__(self, nf, ids_keep, nnew):
+        self.nf, self.ids, self.nnew = nf, list(ids_keep), nnew
+        self.name = f"Chef.__init__.kept-names[nf={nf},keep={self.ids},new={nnew}]"
+
+    def setup(self, ex):
+        names = [f"field{k}" for k in range(self.nf)]
+        new = [f"derived{k}" for k in range(self.nnew)]
+        self_ = Record(CF + "Chef", fields={n: k for k, n in enumerate(names)}, ids_keep=list(self.ids), outfields=list(new))
+        return {"frame": {"self": self_}, "self_": self_, "names": names, "new": new}
+
+    def post(self, ex, inp, out):
+        ctx = ex.ctx
+        ctx.oblige("raises-nothing", out.kind == "ret", "P", note=str(out.exc) if out.kind != "ret" else "")
+        if out.kind != "ret":
+            return
+        of = inp["self_"].attrs.get("outfields")
+        exp = [inp["names"][k] for k in self.ids] + inp["new"]
+        ctx.oblige("post.names-follow-the-order-the-components-are-written", isinstance(of, list) and list(of) == exp, "P",
+                   note=f"{of} vs {exp}")
+        ctx.oblige("frame.ids_keep-unchanged", inp["self_"].attrs.get("ids_keep") == self.ids, "P")
+
+
+def init_tasks(tier):
+    out = [KeptNames(3, [2, 0], 1), KeptNames(3, [1, 1], 2), KeptNames(2, [], 1), KeptNames(4, [3, 1, 2], 1)]
+    return out
+
+
+def init_canaries():
+    f = "amr_kitchen/chef/chef.py"
+    return [("Chef.__init__: kept names listed in plotfile order",
+             [(f, "        kept_names = [list(self.fields.keys())[fid] for fid in self.ids_keep]",
+               "        kept_names = [name for name, fid in self.fields.items() if fid in self.ids_keep]")],
+             ["Chef.__init__.kept-names[nf=3,keep=[2, 0],new=1]"])]
